@@ -13,7 +13,8 @@ inline Plan Gen(uint64_t seed)
    Plan p;
    const int clients = 2 + (int) cfg.below(4), hosts = 1 + (int) cfg.below(2);
    const bool faultFree = cfg.oneIn(4);
-   p.push_back("cfg prop=C13 clients=" + I(clients) + " hosts=" + I(hosts) + " faultfree=" + I(faultFree));
+   const bool quiet = cfg.oneIn(8);   // runs in which children are also removed QUIETLY: replicas may then go stale by design, the server-side index invariants must still hold
+   p.push_back("cfg prop=C13 clients=" + I(clients) + " hosts=" + I(hosts) + " faultfree=" + I(faultFree) + " quiet=" + I(quiet));
    GenState g(clients, hosts);
    for (int c=0; c<clients; c++) if ((c < 2)||(cfg.pct(70))) GenConnect(p, g, cfg, fl, c, faultFree, 40);
    p.push_back("step 2");
@@ -49,7 +50,13 @@ inline Plan Gen(uint64_t seed)
          if (b < 3) to = "-"; else if (b < 5) to = "!Rmv"; else if (b < 7) to = explicitKids[wl.below(4)]; else if (b < 9) to = "I" + I(wl.below(6)); else to = child;
          p.push_back(sendPfx + "reorder " + Esc(par + "/" + child) + " " + Esc(to));
       }
-      else if (k < 66) p.push_back(sendPfx + "rmdata 0 " + Esc(par + "/" + (wl.oneIn(4) ? std::string("*") : (wl.oneIn(2) ? std::string(explicitKids[wl.below(4)]) : ("I" + I(wl.below(6)))))));   // remove children
+      else if ((k < 61)&&(wl.oneIn(4)))
+      {
+         // server-side clone or save+restore of an indexed parent into a sibling location, with or without the add-to-index flag
+         static const char * dsts[] = {"L2", "M/copy", "L/a/c"};
+         p.push_back(std::string(wl.oneIn(2) ? "srvclone " : "srvrestore ") + I(c) + " " + Esc(par) + " " + Esc(dsts[wl.below(3)]) + " " + (wl.oneIn(2) ? "i" : "-"));
+      }
+      else if (k < 66) p.push_back(sendPfx + "rmdata " + std::string(((quiet)&&(wl.oneIn(2))) ? "1 " : "0 ") + Esc(par + "/" + (wl.oneIn(4) ? std::string("*") : (wl.oneIn(2) ? std::string(explicitKids[wl.below(4)]) : ("I" + I(wl.below(6)))))));   // remove children
       else if (k < 69) p.push_back(sendPfx + "rmdata 0 " + Esc(par));                                                      // remove the indexed parent itself
       else if (k < 82)
       {
@@ -88,6 +95,7 @@ inline void Exec(const Plan & plan, RunResult & res)
 {
    srv::Interp in(plan, res);
    in.sim.orc.index = true;
+   in.sim.skipReplicaCompare = (Cfg(plan).i("quiet", 0) != 0);
    in.Run();
    const Stats & st = res.stats;
    auto get = [&](const char * k) {auto it = st.c.find(k); return (it == st.c.end()) ? (uint64_t) 0 : it->second;};
